@@ -1268,7 +1268,13 @@ public:
     *  @param unflat the DataUnflattener we will read our string from (as a NUL-terminated ASCII string)
     *  @return B_NO_ERROR on success, or another value on failure.
     */
-   status_t Unflatten(DataUnflattener & unflat) {return SetCstr(unflat.ReadCString());}
+   status_t Unflatten(DataUnflattener & unflat)
+   {
+      const char * s = unflat.ReadCString();
+      if (s) return SetCstr(s);
+      Clear();
+      return unflat.GetStatus();  // ReadCString() returned NULL, so the data wasn't a NUL-terminated string
+   }
 
    /** Makes sure that we have pre-allocated enough space for a NUL-terminated string
     *  at least (numChars) bytes long (not including the NUL byte).
